@@ -8,7 +8,7 @@ from pdb2sql import pdb2sql, many2sql
 ID = 'C17'
 LEVEL = 'proof'
 CLUSTER = 'B'
-GEN_UNITS = ['Consts']
+GEN_UNITS = ['Consts', 'sql_runtime', 'sql_get_nokw', 'sql_get_cond', 'sql_get_query', 'sql_get_rows_step', 'sql_format_get_output']
 RULE = ('Databases of 1-3 structures (pdb2sql for one, many2sql for several; 30-4000 atoms per table, formula-generated so that the '
         'Lean side rebuilds the same records). One condition carries a value list of length L in {0,1,2,949,950,951,998,999,1000,'
         '1899,1900,1901,2851} or a random length up to 3000, on rowID / serial / resSeq / name / x, positive or negated, values in '
@@ -16,7 +16,11 @@ RULE = ('Databases of 1-3 structures (pdb2sql for one, many2sql for several; 30-
         'with further conditions (scalar, short list, a second long list; including combinations whose weights exceed 999 -> the '
         'documented error); every table name of the database; through get, get_all and update (the state of EVERY table is compared '
         'after the update). The real code runs under a lowered recursion limit, so unbounded recursion is a reported outcome. '
-        'Non-trivial: list longer than 950 or a non-default table or a combined-limit case, distinct by content.')
+        'Non-trivial: list longer than 950 or a non-default table or a combined-limit case, distinct by content. '
+        'SQL TEXT TIE (extra check): for calls with one over-long list the COMPLETE sequence of statements the real get() sends to the '
+        'sqlite3 cursor (recorded by a proxy around db.c) is compared with the sequence the TRANSLATED builders predict: one '
+        '`SELECT rowID ...` per chunk of 950 values (op sql_get on the keyword list with the chunk substituted), then one '
+        '`SELECT cols ... WHERE rowID in (?,...)` per 950 selected rows (op sql_rows_step); texts and bound values must coincide.')
 ASSUMPTIONS = ['SQLite accepts up to 999 bound variables (the limit the source assumes); beyond the model the engine may accept more',
                'as C03: comparison affinity of SQLite = Model.sqlEq (sampled)']
 TRUSTED = ['the formula that generates the big tables is implemented twice (Driver/BJson.lean genRow, c17.gen_row); the harness checks '
@@ -230,6 +234,62 @@ def cases(ctx):
                       'carrier': rng.choice(['list', 'tuple', 'npscalar'])}]}
         out.append(c)
     return out
+
+
+# ---------------------------------------------------------------------------------------------------------
+# the SQL text tie on the chunked path: the whole sequence of statements
+# ---------------------------------------------------------------------------------------------------------
+
+def sql_text_checks(ctx):
+    import vlib
+    rng = ctx.rng
+    specs = [[('atom', 60, 0)], [('atom', 1000, 3)], [('s1', 90, 2), ('s2', 35, 9)], [('ATOM', 150, 1), ('ATOM1', 100, 11), ('ATOM2', 120, 5)]]
+    lines, plan = [], []
+    skipped = 0
+    for rep in range(ctx.scale(24, 160)):
+        spec = specs[rep % len(specs)]
+        nm, n, _ = rng.choice(spec)
+        tn = nm if rng.random() < 0.7 else nm.lower() if nm.lower() != nm else nm.upper()
+        key = ['rowID', 'serial', 'name', 'resSeq', 'x'][rep % 5]
+        L = rng.choice([951, 1000, 1899, 1900, 1901, 2851, rng.randrange(951, 3000)])
+        neg = rng.choice(['', 'no_'])
+        vals = value_list(rng, key, n, L, rng.choice(['asc', 'desc', 'shuffled', 'asis']), rng.choice(['none', 'within', 'across']))
+        extra = [(k, (v[:40] if isinstance(v, list) else v)) for k, v in further_conds(rng, {key}, n, rng.choice(['none', 'scalar', 'short', 'both']))]
+        kws = [(neg + key, vals)] + extra
+        if rng.random() < 0.4:
+            rng.shuffle(kws)
+        cols = rng.choice(['rowID', 'rowID,serial', 'name', 'serial,x,chainID', '*', 'x, y ,z'])
+        db = obj_of(spec)
+        rows = call(lambda: db.get('rowID', tablename=tn, **dict(kws)))
+        out, log = B.recorded(db, lambda: db.get(cols, tablename=tn, **dict(kws)))
+        if is_err(out) or is_err(rows):
+            skipped += 1
+            continue
+        sent = [{'text': e[1], 'vals': [jval(x) for x in e[2]]} for e in B.main_statements(log)]
+        rows = sorted(rows)
+        first = len(lines)
+        for i in range(0, L, 950):
+            sub = [(k, (vals[i:i + 950] if k == neg + key else v)) for k, v in kws]
+            lines.append({'op': 'sql_get', 'columns': 'rowID', 'tn': tn, 'kw': jkw(sub)})
+        for i in range(0, len(rows), 950):
+            lines.append({'op': 'sql_rows_step', 'columns': cols, 'tn': tn, 'rows': rows, 'i': i, 'size': 950})
+        plan.append(({'columns': cols, 'tn': tn, 'kw': [(k, (f'<{len(v)} values>' if isinstance(v, list) and len(v) > 50 else v)) for k, v in kws]},
+                     sent, first, len(lines)))
+    ans = vlib.run_driver(lines, which='model', cluster=CLUSTER) if lines else []
+    bad, nst = None, 0
+    for case, sent, a, b in plan:
+        want = [x.get('model') for x in ans[a:b]]
+        nst += len(sent)
+        if sent != want and bad is None:
+            k = next((i for i in range(min(len(sent), len(want))) if sent[i] != want[i]), min(len(sent), len(want)))
+            bad = {'case': case, 'number of statements (real, predicted)': [len(sent), len(want)], 'first difference at': k,
+                   'real code sends': short(sent[k] if k < len(sent) else None, 600), 'translated builders': short(want[k] if k < len(want) else None, 600)}
+    return [{'name': f'chunked path: the whole sequence of statements = what the translated builders predict ({len(plan)} calls, {nst} statements, {skipped} skipped)',
+             'ok': bad is None and len(plan) >= 10, 'case': bad, 'detail': 'Gen/Sql.lean get_query (per chunk) and get_rows_step (final queries)', 'kind': 'sql-text'}]
+
+
+def extra_checks(ctx):
+    return sql_text_checks(ctx)
 
 
 def search_cases(ctx):
